@@ -426,7 +426,7 @@ pub fn def() -> PropDef {
                 name: "order",
                 rule: "see property rule",
                 strategy: strategy_ord,
-                cases: (12_000, 800_000),
+                cases: (120_000, 2_000_000),
                 exhaustive: Some(enumerate_ord),
                 exhaustive_note: "all ordered pairs of functions n<=2 (quick) / n<=3 (thorough), both families",
                 run: run_ord,
@@ -444,7 +444,7 @@ pub fn def() -> PropDef {
                 name: "successor",
                 rule: "hooked successor and iterator from arbitrary tables",
                 strategy: strategy_succ,
-                cases: (12_000, 800_000),
+                cases: (120_000, 2_000_000),
                 exhaustive: None,
                 exhaustive_note: "",
                 run: run_succ,
